@@ -286,3 +286,172 @@ Proof.
     intros Heq; apply Hc; rewrite Heq; reflexivity. }
   unfold reported. lia.
 Qed.
+
+(* ---------- the strength the proofs actually have ---------- *)
+(* (a) 21 of the 25 proved query kinds need neither coherence nor safe writes: their index rule does
+   not go through a service name *)
+Inductive plainq : query -> Prop :=
+| pq_tab q : tabq q -> plainq q
+| pq_kv q : kvq q -> plainq q
+| pq_ns n : plainq (QNodeServices n).
+
+Lemma plainq_okq q : plainq q -> okq q.
+Proof. intros [q' H|q' H|n]; [apply ok_tab|apply ok_kv|apply ok_ns]; assumption. Qed.
+Lemma plainq_not_optimised q s : plainq q -> ~ csn_optimised q s.
+Proof. intros Hq. destruct Hq as [q H|q H|n]; [destruct H|destruct H|]; exact (fun f => f). Qed.
+
+Lemma prim_mono_plain i p s q : Bnd i s -> pvalid i p s -> plainq q -> idx q s <= idx q (papply i p s).
+Proof.
+  intros HBnd Hv Hq. pose proof (bnd_index _ _ HBnd) as HB. destruct Hq as [q Hq|q Hq|n].
+  - apply tab_mono; assumption.
+  - apply kv_mono; assumption.
+  - apply node_services_mono; assumption.
+Qed.
+Lemma prim_changed_plain i p s q :
+  Bnd i s -> pvalid i p s -> plainq q -> res q s <> res q (papply i p s) -> i <= idx q (papply i p s).
+Proof.
+  intros HBnd Hv Hq Hc. pose proof (bnd_index _ _ HBnd) as HB. destruct Hq as [q Hq|q Hq|n].
+  - rewrite (tab_changed i p s q HB Hq Hc). lia.
+  - apply kv_changed; assumption.
+  - rewrite (node_services_changed i p s n HB Hv Hc). lia.
+Qed.
+Lemma run_mono_plain i ps s q : Bnd i s -> Valid i ps s -> plainq q -> idx q s <= idx q (prun i ps s).
+Proof.
+  revert s. induction ps as [|p ps IH]; intros s HBnd HV Hq; [cbn; lia|].
+  destruct HV as [Hv HV]. rewrite prun_cons.
+  etransitivity; [apply (prim_mono_plain i p s q); assumption|].
+  apply IH; try assumption. apply Bnd_papply; assumption.
+Qed.
+Lemma run_changed_plain i ps s q :
+  Bnd i s -> Valid i ps s -> plainq q -> res q s <> res q (prun i ps s) -> i <= idx q (prun i ps s).
+Proof.
+  revert s. induction ps as [|p ps IH]; intros s HBnd HV Hq Hc; [contradiction Hc; reflexivity|].
+  destruct HV as [Hv HV]. rewrite prun_cons in *.
+  assert (HBnd1 : Bnd i (papply i p s)) by (apply Bnd_papply; assumption).
+  destruct (decide (res q s = res q (papply i p s))) as [Heq|Hne].
+  - apply IH; try assumption. rewrite <- Heq. exact Hc.
+  - etransitivity; [apply (prim_changed_plain i p s q); assumption|]. apply run_mono_plain; assumption.
+Qed.
+
+(* (b) the high-water form: a changed result reports AT LEAST the index of the write, and no state
+   reports more than the index of its last write -- so the new index is above every index any
+   earlier state of the history ever reported, also across an intervening tombstone reap *)
+Theorem idx_bounded hi s q : Reach hi s -> okq q -> idx q s <= hi.
+Proof. intros HR Hq. apply okq_idx_le; [apply Reach_Bnd, HR|exact Hq]. Qed.
+
+Theorem highwater_plain hi s i c q :
+  Reach hi s -> hi < i -> plainq q -> res q (apply i c s) <> res q s -> i <= idx q (apply i c s).
+Proof.
+  intros HR Hlt Hq Hc. pose proof (Reach_Bnd _ _ HR) as HBhi.
+  assert (HBnd : Bnd i s) by (eapply Bnd_mono; [|exact HBhi]; lia).
+  unfold apply in *. destruct (trace i c s) as [ps|] eqn:Et; [|contradiction Hc; reflexivity].
+  destruct (reap_dec c) as [[u ->]|Hr].
+  { cbn in Et. injection Et as <-. cbn [prun foldl] in Hc. rewrite res_reap in Hc. contradiction Hc; reflexivity. }
+  destruct (trace_ok i c s ps Et Hr) as [HV _].
+  apply (run_changed_plain i ps s q HBnd HV Hq). intros Heq; apply Hc; rewrite Heq; reflexivity.
+Qed.
+
+Theorem highwater_okq hi s i c q :
+  Reach hi s -> Coherent s -> hi < i -> safe_cmd c s -> okq q ->
+  res q (apply i c s) <> res q s -> i <= idx q (apply i c s).
+Proof.
+  intros HR HC Hlt Hs Hq Hc. pose proof (Reach_Bnd _ _ HR) as HBhi.
+  assert (HBnd : Bnd i s) by (eapply Bnd_mono; [|exact HBhi]; lia).
+  unfold apply in *. destruct (trace i c s) as [ps|] eqn:Et; [|contradiction Hc; reflexivity].
+  destruct (reap_dec c) as [[u ->]|Hr].
+  { cbn in Et. injection Et as <-. cbn [prun foldl] in Hc. rewrite res_reap in Hc. contradiction Hc; reflexivity. }
+  destruct (trace_ok i c s ps Et Hr) as [HV HS].
+  apply (run_changed i ps s q HBnd HC HV (HS Hs) Hq). intros Heq; apply Hc; rewrite Heq; reflexivity.
+Qed.
+
+Theorem fires_plain hi s i c q :
+  Reach hi s -> hi < i -> plainq q -> res q (apply i c s) <> res q s -> fires (ws q s) (touched i c s) = true.
+Proof.
+  intros _ _ Hq Hc. unfold touched. apply fires_pure; [apply plainq_okq, Hq|apply plainq_not_optimised, Hq|].
+  intros Heq. apply Hc. rewrite Heq. reflexivity.
+Qed.
+
+Theorem monotone_plain hi s i c q :
+  Reach hi s -> hi < i -> plainq q -> (forall u, c <> Reap u) -> idx q s <= idx q (apply i c s).
+Proof.
+  intros HR Hlt Hq Hr. pose proof (Reach_Bnd _ _ HR) as HBhi.
+  assert (HBnd : Bnd i s) by (eapply Bnd_mono; [|exact HBhi]; lia).
+  unfold apply. destruct (trace i c s) as [ps|] eqn:Et; [|lia].
+  destruct (trace_ok i c s ps Et Hr) as [HV _]. apply run_mono_plain; assumption.
+Qed.
+
+(* ---------- the loop, tightly: which minimum the returned index was compared with ---------- *)
+Definition is_nf (r : N * qerr * wake) : bool := match r.1.2 with ENotFound => true | _ => false end.
+Definition fired (r : N * qerr * wake) : bool := match r.2 with Fired => true | _ => false end.
+
+(* round j of the script replaced the minimum: it answered not-found after an earlier not-found
+   round, or not-changed after any earlier round *)
+Definition replaces (rounds : list (N * qerr * wake)) (j : nat) : Prop :=
+  exists raw e w, rounds !! j = Some (raw, e, w) /\
+    ((e = ENotFound /\ existsb is_nf (take j rounds) = true) \/ (e = ENotChanged /\ j <> 0%nat)).
+
+Lemma loop_tight pre rest ls min :
+  forallb fired pre = true ->
+  l_notfound ls = existsb is_nf pre -> l_ranonce ls = negb (bool_decide (pre = [])) ->
+  (l_min ls = min \/ exists j, (j < length pre)%nat /\ replaces (pre ++ rest) j /\
+                              exists raw e w, (pre ++ rest) !! j = Some (raw, e, w) /\ l_min ls = N.max 1 raw) ->
+  match loop ls rest with
+  | XIndex i =>
+    exists n raw e w, (pre ++ rest) !! n = Some (raw, e, w) /\ i = N.max 1 raw /\
+      forallb fired (take n (pre ++ rest)) = true /\
+      exists m, m < i /\ (m = min \/ exists j rj ej wj, (j <= n)%nat /\ replaces (pre ++ rest) j /\
+                                                     (pre ++ rest) !! j = Some (rj, ej, wj) /\ m = N.max 1 rj)
+  | _ => True
+  end.
+Proof.
+  revert pre ls. induction rest as [|[[raw e] w] rest IH]; intros pre ls Hf Hnf Hro Hmin; cbn [loop]; [exact I|].
+  unfold round_step. set (i := N.max 1 raw).
+  set (min' := match e with ENotFound => if l_notfound ls then i else l_min ls
+                       | ENotChanged => if l_ranonce ls then i else l_min ls | ENone => l_min ls end).
+  cbn [l_min].
+  assert (Hhere : (pre ++ (raw, e, w) :: rest) !! length pre = Some (raw, e, w)).
+  { rewrite lookup_app_r by lia. rewrite Nat.sub_diag. reflexivity. }
+  assert (Hmin' : min' = min \/ exists j rj ej wj, (j <= length pre)%nat /\ replaces (pre ++ (raw, e, w) :: rest) j /\
+                                                  (pre ++ (raw, e, w) :: rest) !! j = Some (rj, ej, wj) /\ min' = N.max 1 rj).
+  { assert (Hold : l_min ls = min \/ exists j rj ej wj, (j <= length pre)%nat /\ replaces (pre ++ (raw, e, w) :: rest) j /\
+                                        (pre ++ (raw, e, w) :: rest) !! j = Some (rj, ej, wj) /\ l_min ls = N.max 1 rj).
+    { destruct Hmin as [H|(j & Hj & Hr & rj & ej & wj & Hl & Hm)]; [left; exact H|].
+      right. exists j, rj, ej, wj. repeat split; try assumption. lia. }
+    assert (Hnew : forall (He : (e = ENotFound /\ l_notfound ls = true) \/ (e = ENotChanged /\ l_ranonce ls = true)),
+               exists j rj ej wj, (j <= length pre)%nat /\ replaces (pre ++ (raw, e, w) :: rest) j /\
+                                  (pre ++ (raw, e, w) :: rest) !! j = Some (rj, ej, wj) /\ i = N.max 1 rj).
+    { intros He. exists (length pre), raw, e, w. split; [lia|]. split; [|split; [exact Hhere|reflexivity]].
+      exists raw, e, w. split; [exact Hhere|]. rewrite take_app.
+      destruct He as [[-> Hl]|[-> Hl]]; [left|right]; (split; [reflexivity|]).
+      - rewrite <- Hnf. exact Hl.
+      - rewrite Hro in Hl. intros Hz. apply length_zero_iff_nil in Hz. subst pre. discriminate. }
+    subst min'. destruct e.
+    - exact Hold.
+    - destruct (l_notfound ls) eqn:El; [right; apply Hnew; left; split; reflexivity|exact Hold].
+    - destruct (l_ranonce ls) eqn:El; [right; apply Hnew; right; split; reflexivity|exact Hold]. }
+  case_bool_decide as Hlt.
+  - exists (length pre), raw, e, w. split; [exact Hhere|]. split; [reflexivity|].
+    split; [rewrite take_app; exact Hf|]. exists min'. split; [exact Hlt|exact Hmin'].
+  - destruct w; try exact I.
+    specialize (IH (pre ++ [(raw, e, Fired)])
+                   (LS min' (l_notfound ls || match e with ENotFound => true | _ => false end) true)).
+    rewrite <- app_assoc in IH. cbn [app] in IH. apply IH.
+    + rewrite forallb_app, Hf. reflexivity.
+    + cbn [l_notfound]. rewrite existsb_app, Hnf. cbn. unfold is_nf at 2. cbn. rewrite orb_false_r. reflexivity.
+    + cbn [l_ranonce]. rewrite bool_decide_eq_false_2; [reflexivity|]. intros H. destruct pre; discriminate.
+    + cbn [l_min]. destruct Hmin' as [H|(j & rj & ej & wj & Hj & Hr & Hl & Hm)]; [left; exact H|].
+      right. exists j. split; [rewrite app_length; cbn; lia|]. split; [exact Hr|].
+      exists rj, ej, wj. split; assumption.
+Qed.
+
+Theorem loop_contract_tight min rounds i :
+  min <> 0 -> blocking_query min rounds = XIndex i ->
+  exists n raw e w, rounds !! n = Some (raw, e, w) /\ i = N.max 1 raw /\
+    forallb fired (take n rounds) = true /\
+    exists m, m < i /\ (m = min \/ exists j rj ej wj, (j <= n)%nat /\ replaces rounds j /\
+                                              rounds !! j = Some (rj, ej, wj) /\ m = N.max 1 rj).
+Proof.
+  intros Hmin. unfold blocking_query. rewrite bool_decide_eq_false_2 by exact Hmin. intros Hl.
+  pose proof (loop_tight [] rounds (LS min false false) min eq_refl eq_refl eq_refl (or_introl eq_refl)) as H.
+  cbn [app] in H. rewrite Hl in H. exact H.
+Qed.
